@@ -241,6 +241,9 @@ def role(ctx, name):
         cands = fns_by_sig(ctx, lambda i: i == [], lambda o: o == A + "Expr")
     elif name == "modifiers_parser":
         cands = fns_by_sig(ctx, lambda i: i == ["&[core::option::Option<%sExprOrSpread>]" % A], lambda o: "BTreeSet<swc_atoms::Atom>" in o)
+    elif name == "depth_gate_fn":
+        # the recursion guard of the type resolvers: whatever hands out the guard object (never folded into its callers: R08.2 reads it)
+        cands = fns_by_sig(ctx, lambda i: len(i) == 2 and i[1] == "swc_common::Span", lambda o: o.startswith("core::option::Option<resolve_type::ResolveGuard<"))
     elif name == "slot_helper_fn":
         cands = [b for b in fns_by_sig(ctx, lambda i: len(i) == 1 and i[0].startswith("&mut VueJsxTransformVisitor"), lambda o: o == A + "Ident")
                  if any(n.get("k") == "Field" and n.get("name") == "slot_helper_ident" for n in walk(b["body"]))]
@@ -273,7 +276,7 @@ CANON = {
     "fragment_pred": "is_fragment_name", "on_pred": "is_on", "first_lower": "lower_first", "member_to_expr": "jsx_member_to_expr",
     "v_model_parser": "parse_v_model_directive", "v_slots_parser": "parse_v_slots_directive", "v_html_parser": "parse_v_html_directive",
     "v_text_parser": "parse_v_text_directive", "lit_key_unwrapper": "try_unwrap_lit_prop_name", "attr_const_pred": "is_jsx_attr_value_constant",
-    "undefined_fn": "undefined", "modifiers_parser": "parse_modifiers", "slot_helper_fn": "generate_slot_helper",
+    "undefined_fn": "undefined", "modifiers_parser": "parse_modifiers", "slot_helper_fn": "generate_slot_helper", "depth_gate_fn": "enter_resolve",
 }
 
 
